@@ -5,6 +5,7 @@ import (
 	"math/rand"
 	"os"
 	"path/filepath"
+	"strings"
 	"sync"
 	"sync/atomic"
 	"time"
@@ -37,6 +38,17 @@ func checkC03(ctx *Ctx) {
 		if ctx.Mine(i) {
 			ctx.SetCurrent(fmt.Sprintf("C03 one-instant %d seed %d", i, ctx.Seed))
 			c03Instant(ctx, i)
+		}
+	}
+	for ci, cmd := range c03MidCommands {
+		if !ctx.Mine(ci + 2) {
+			continue
+		}
+		for k := 1; k <= 10; k++ {
+			ctx.SetCurrent(fmt.Sprintf("C03 snapshot in the middle of %v step %d", cmd, k))
+			if points := c03MidCommand(ctx, ci, cmd, k); k >= points {
+				break
+			}
 		}
 	}
 	cases := 0
@@ -500,4 +512,137 @@ func c03Instant(ctx *Ctx, i int) {
 	if i == 1 {
 		ctx.Sample("one-instant", map[string]interface{}{"mode": mode, "writes_during_snapshot": head(writes, 12)})
 	}
+}
+
+// c03MidCommand: a snapshot is requested while a multi-step write command (RENAME, LMOVE, SMOVE, a STORE
+// form, SET with an expiry, MSET, GETDEL ...) is parked at one of its keyspace steps. The snapshot either
+// waits for the command (then the command is released first) or completes while it is parked; either way the
+// restored dataset must be the dataset before the command or the dataset after it - a snapshot holding the
+// source AND the destination of a RENAME, or a value without its deadline, is no instant of the dataset.
+func c03MidCommand(ctx *Ctx, ci int, cmd []string, k int) (points int) {
+	root := mkScratch("c03m")
+	defer os.RemoveAll(root)
+	dir := filepath.Join(root, "data")
+	_ = os.MkdirAll(dir, 0o755)
+	clk := NewVClock()
+	in, err := NewInst(InstOpts{DataDir: dir, AOFStrategy: "no", Clock: clk})
+	if err != nil {
+		ctx.Broken("C03 mid-command: " + err.Error())
+		return 0
+	}
+	defer in.Close()
+	for _, c := range [][]string{{"RPUSH", "l", "a", "b", "c"}, {"EXPIREAT", "l", "1999999999"}, {"RPUSH", "m", "m1"}, {"SADD", "s1", "a", "b"}, {"SADD", "s2", "c"},
+		{"SET", "c", "10"}, {"SET", "str", "v", "EXAT", "1999999998"}, {"ZADD", "z", "1", "a", "2", "b"}, {"ZADD", "z2", "3", "b"}, {"HSET", "h", "f", "1"}} {
+		in.Do(c...)
+	}
+	in.Do("SET", "opener", "v")
+	before := CanonDump(in.S.VerifDump(), clk.NowNs())
+	var aID, openerID atomic.Int64
+	var nA atomic.Int64
+	parked, release := make(chan struct{}), make(chan struct{})
+	openerParked, openerRelease, queued := make(chan struct{}), make(chan struct{}), make(chan struct{})
+	var once, onceO, onceQ sync.Once
+	setHook(func(name string, args ...interface{}) {
+		g := goid()
+		switch {
+		case strings.HasPrefix(name, "ks.") && g == openerID.Load():
+			onceO.Do(func() { close(openerParked); <-openerRelease })
+		case name == "cmd.lock.wait" && g == aID.Load():
+			onceQ.Do(func() { close(queued) })
+		case strings.HasPrefix(name, "ks.") && g == aID.Load():
+			if int(nA.Add(1)) == k {
+				once.Do(func() { close(parked) })
+				<-release
+			}
+		}
+	})
+	defer setHook(nil)
+	// In every second case the command under test starts while another write command holds the command lock
+	// (parked at its first keyspace step) and runs as soon as that one has finished: a command that had to
+	// queue behind another one is as much in progress as one that did not.
+	if ci%2 == 1 || k%2 == 0 {
+		go func() {
+			openerID.Store(goid())
+			in.Do("SET", "opener", "v")
+		}()
+		select {
+		case <-openerParked:
+		case <-time.After(20 * time.Second):
+			close(openerRelease)
+			ctx.Inconclusive("mid-command: the opening command never reached its step")
+			return 0
+		}
+	} else {
+		close(openerRelease)
+	}
+	aDone := make(chan struct{})
+	go func() {
+		aID.Store(goid())
+		in.Do(cmd...)
+		close(aDone)
+	}()
+	select {
+	case <-queued:
+	case <-time.After(100 * time.Millisecond):
+	}
+	select {
+	case <-openerRelease:
+	default:
+		time.Sleep(2 * time.Millisecond) // the queued command is at (or on its way to) the lock: steering only
+		close(openerRelease)
+	}
+	select {
+	case <-parked:
+	case <-aDone:
+		return int(nA.Load()) // fewer steps than k
+	case <-time.After(20 * time.Second):
+		close(release)
+		ctx.Inconclusive("mid-command: the command never reached its step")
+		return 0
+	}
+	sDone := make(chan error, 1)
+	go func() { sDone <- in.S.VerifSnapshotSync() }()
+	var serr error
+	overtook := false
+	select {
+	case serr = <-sDone:
+		overtook = true // the snapshot was taken while the command was parked
+		close(release)
+	case <-time.After(150 * time.Millisecond):
+		close(release) // the snapshot is waiting for the command (steering only: decides nothing)
+		select {
+		case serr = <-sDone:
+		case <-time.After(60 * time.Second):
+			ctx.Inconclusive("mid-command: the snapshot did not finish within the watchdog")
+			return int(nA.Load())
+		}
+	}
+	select {
+	case <-aDone:
+	case <-time.After(60 * time.Second):
+		ctx.Inconclusive("mid-command: the command did not finish within the watchdog")
+		return int(nA.Load())
+	}
+	setHook(nil)
+	after := CanonDump(in.S.VerifDump(), clk.NowNs())
+	if serr != nil {
+		ctx.Count("mid_command_snapshot_not_taken", 1)
+		return int(nA.Load())
+	}
+	d, rd, rerr := restoreSnapDump(dir, clk, nil)
+	os.RemoveAll(rd.dir)
+	ctx.Eval(1)
+	ctx.Class(fmt.Sprintf("mid-command|%s|step=%d|snapshot-overtook=%v", strings.ToLower(cmd[0]), k, overtook))
+	if rerr != nil || (!canonEq(before, d) && !canonEq(after, d)) {
+		ctx.Violate(Violation{Kind: "mixture", Lane: "mid-command",
+			What: fmt.Sprintf("a snapshot was requested while %s was at its keyspace step %d (the snapshot completed before the command was released: %v); the restored dataset is neither the dataset before the command nor the dataset after it: %v against before: %s | against after: %s", Step{Argv: cmd}.String(), k, overtook, rerr, trunc(model.DiffCanon(before, d), 300), trunc(model.DiffCanon(after, d), 300)),
+			Case: map[string]interface{}{"command": cmd, "parked_at_step": k}, Key: "c03|mid-command|" + strings.ToLower(cmd[0])})
+	}
+	return int(nA.Load())
+}
+
+var c03MidCommands = [][]string{
+	{"RENAME", "l", "fresh"}, {"RENAME", "str", "c"}, {"LMOVE", "l", "m", "LEFT", "RIGHT"}, {"SMOVE", "s1", "s2", "a"}, {"SUNIONSTORE", "s3", "s1", "s2"},
+	{"SET", "new", "v", "EX", "100"}, {"SET", "c", "11", "PX", "5000"}, {"MSET", "c", "1", "new2", "2"}, {"GETDEL", "c"}, {"ZUNIONSTORE", "z3", "z", "z2"},
+	{"GETEX", "str", "PERSIST"}, {"EXPIRE", "c", "100"}, {"DEL", "l", "m", "c"}, {"FLUSHDB"},
 }
